@@ -53,6 +53,15 @@ type scanner struct {
 	pkgs  map[string]*pkgInfo // by directory
 	refs  []Ref
 	stats scanStats
+	// ErrXxx declarations of internal/errors and how often each name is
+	// referenced anywhere else in the non-test sources
+	errDecls []errDecl
+	errUses  map[string]int
+}
+
+type errDecl struct {
+	name, key string
+	pos       token.Pos
 }
 
 // keyShaped: what a catalog key looks like (dot-separated words, no blanks,
@@ -62,7 +71,7 @@ type scanner struct {
 var keyShaped = regexp.MustCompile(`^[A-Za-z_][A-Za-z0-9_\-]*(\.[A-Za-z0-9_\-@]+)+$`)
 
 func newScanner(root string) *scanner {
-	return &scanner{root: root, fset: token.NewFileSet(), pkgs: map[string]*pkgInfo{},
+	return &scanner{root: root, fset: token.NewFileSet(), pkgs: map[string]*pkgInfo{}, errUses: map[string]int{},
 		stats: scanStats{Sites: map[string]int{}, Dynamic: map[string]int{}, FreeText: map[string]int{}, NotLocal: map[string]int{}}}
 }
 
@@ -286,6 +295,13 @@ func (s *scanner) scanPkg(dir string) {
 		}
 		inherited := map[*ast.CompositeLit]string{}
 		inErrDecl := map[*ast.CallExpr]bool{}
+		declIdent := map[*ast.Ident]bool{}
+		errAlias := map[string]bool{}
+		for a, ip := range imp {
+			if ip == modPath+"/internal/errors" {
+				errAlias[a] = true
+			}
+		}
 		ast.Inspect(f, func(n ast.Node) bool {
 			switch v := n.(type) {
 			case *ast.GenDecl:
@@ -315,10 +331,19 @@ func (s *scanner) scanPkg(dir string) {
 									s.stats.NotLocal["errors.decl"]++
 									continue
 								}
-								s.add("errors.decl", "error."+strings.TrimPrefix(k, "error."), "", call.Pos())
+								declIdent[name] = true
+								s.errDecls = append(s.errDecls, errDecl{name: name.Name, key: "error." + strings.TrimPrefix(k, "error."), pos: call.Pos()})
 							}
 						}
 					}
+				}
+			case *ast.SelectorExpr:
+				if id, ok := v.X.(*ast.Ident); ok && errAlias[id.Name] && strings.HasPrefix(v.Sel.Name, "Err") {
+					s.errUses[v.Sel.Name]++
+				}
+			case *ast.Ident:
+				if pkgPath == modPath+"/internal/errors" && strings.HasPrefix(v.Name, "Err") && !declIdent[v] {
+					s.errUses[v.Name]++
 				}
 			case *ast.CallExpr:
 				if inErrDecl[v] {
@@ -397,6 +422,27 @@ func (s *scanner) scanPkg(dir string) {
 				// if fullDescription == option.Description { fullDescription =
 				// i18n.T(optMessagePrefix + option.Description) }" and
 				// "parmDesc := i18n.T(g.ParameterDescription)".
+				// "if option.Private { continue }" (addOptionsToTable): the
+				// description of a private non-subcommand option is never
+				// shown. For subcommands and parameters the help code only
+				// tries the key as it is ("if optionDescription ==
+				// c.Description" never holds for them), so no "opt." form.
+				private, optType := false, ""
+				for _, e := range v.Elts {
+					if kv, ok := e.(*ast.KeyValueExpr); ok {
+						if id, ok := kv.Key.(*ast.Ident); ok {
+							switch id.Name {
+							case "Private":
+								if b, ok := kv.Value.(*ast.Ident); ok && b.Name == "true" {
+									private = true
+								}
+							case "OptionType":
+								optType = typeString(kv.Value)
+								optType = optType[strings.LastIndex(optType, ".")+1:]
+							}
+						}
+					}
+				}
 				for _, e := range v.Elts {
 					kv, ok := e.(*ast.KeyValueExpr)
 					if !ok {
@@ -404,6 +450,10 @@ func (s *scanner) scanPkg(dir string) {
 					}
 					id, ok := kv.Key.(*ast.Ident)
 					if !ok || (id.Name != "Description" && id.Name != "ParmDesc") {
+						continue
+					}
+					if private && optType != "Subcommand" && id.Name == "Description" {
+						s.stats.NotLocal["cli.Description"]++
 						continue
 					}
 					fam := "cli." + id.Name
@@ -430,7 +480,7 @@ func (s *scanner) scanPkg(dir string) {
 						continue
 					}
 					alt := ""
-					if id.Name == "Description" {
+					if id.Name == "Description" && optType != "Subcommand" && optType != "ParameterType" {
 						alt = "opt." + k
 					}
 					s.add(fam, k, alt, kv.Pos())
@@ -469,6 +519,16 @@ func scanTree(root string) ([]Ref, scanStats) {
 	sort.Strings(dirs)
 	for _, d := range dirs {
 		s.scanPkg(d)
+	}
+	for _, d := range s.errDecls {
+		if s.errUses[d.name] == 0 {
+			// declared but referenced nowhere in the non-test Go sources:
+			// the code cannot emit it
+			s.stats.NotLocal["errors.decl unreferenced"]++
+			s.stats.FreeList = append(s.stats.FreeList, fmt.Sprintf("errors.decl unreferenced %s %s %q", s.rel(d.pos), d.name, d.key))
+			continue
+		}
+		s.add("errors.decl", d.key, "", d.pos)
 	}
 	sort.SliceStable(s.refs, func(i, j int) bool {
 		a, b := s.refs[i], s.refs[j]
